@@ -21,11 +21,13 @@ ENCODED = ["twisted.web._flatten:escapeForContent", "twisted.web._flatten:attrib
            "twisted.web._flatten:writeWithAttributeEscaping", "twisted.web._flatten:escapedCDATA",
            "twisted.web._flatten:escapedComment", "twisted.web._flatten:_flattenElement",
            "twisted.web._flatten:_flattenTree", "twisted.web._flatten:flatten"]
-BOUNDS = {"quick": {"n": 4, "nc": 6, "m": 3}, "thorough": {"n": 6, "nc": 8, "m": 4}}
+BOUNDS = {"quick": {"nt": 4, "n": 4, "nc": 6, "m": 3}, "thorough": {"nt": 6, "n": 5, "nc": 8, "m": 4}}
 B = {}
 BOUNDS_TEXT = ("flatten() of a single text child / attribute value (<= n-1 chars), Comment (<= n) and CDATA (<= nc) "
-               "with the module constant BUFFER_SIZE set to 1, 2 and 3; leaf functions: content of <= n characters (CDATA: <= nc), given as str (code points < 128) and as bytes (all 256 "
-               "values); trees <p b=Y>{slot X}</p> and <div><!--X--><a href={<i>Y</i>}></a></div> with "
+               "with the module constant BUFFER_SIZE set to 1, 2 and 3; leaf functions: escapeForContent on <= nt "
+               "characters, attribute escaping and escapedComment on <= n, escapedCDATA on <= nc, each given as str "
+               "(code points < 128) and as bytes (all 256 values); thorough tier: nt=6, n=5, nc=8, m=4 (attribute / "
+               "comment content of 6 and trees of 5 characters were measured at > 20000 CPU s and cut); trees <p b=Y>{slot X}</p> and <div><!--X--><a href={<i>Y</i>}></a></div> with "
                "len(X) + len(Y) <= m")
 OUTSIDE = ["the real BUFFER_SIZE of 65536: per-buffer processing in the flattener (flushing, and any escaping or "
            "writing of a leaf in BUFFER_SIZE slices) is exercised with the constant scaled to 1, 2, 3 (harness "
@@ -484,7 +486,7 @@ def _in(x, asbytes):
 
 def content(x: str, asbytes: bool) -> bool:
     """
-    pre: len(x) <= B['n'] and all(ord(c) < (256 if asbytes else 128) for c in x)
+    pre: len(x) <= B['nt'] and all(ord(c) < (256 if asbytes else 128) for c in x)
     post: _
     """
     esc = t(L.escapeForContent(_in(x, asbytes)))
@@ -684,7 +686,7 @@ def _leaf_shards(split, key="n"):
             out.append(("asbytes == %s" % ab, "len(x) == %d" % (n - 1)))
             cls = [()]
             if split:
-                if tier == "quick":
+                if n <= 5:
                     cls = [(c % "x[0]",) for c in (_C2 if ab else _C5)]
                 else:
                     cls = [(c % "x[0]", c2 % "x[1]") for c in _C5 for c2 in (_C2 if ab else _C5)]
@@ -702,7 +704,7 @@ def _tree_shards(tier):
 
 
 HARNESSES = [
-    H(content, shards=_leaf_shards(True), timeout={"quick": 120, "thorough": 1500}),
+    H(content, shards=_leaf_shards(True, "nt"), timeout={"quick": 120, "thorough": 1500}),
     H(attribute, shards=_leaf_shards(True), timeout={"quick": 120, "thorough": 1500}),
     H(comment, shards=_leaf_shards(True), timeout={"quick": 120, "thorough": 1500}),
     H(cdata, shards=_leaf_shards(False, "nc"), timeout={"quick": 120, "thorough": 1500}),
